@@ -59,7 +59,7 @@ def cases(tier):
         for beta in betas:
             out.append(("maxval", "K", area, math.copysign(mx, area), beta))
     # boundary max_val for EVERY target duration in a range: just above / just below the peak of the d-ns window
-    hi = 260 if tier == "quick" else 1200
+    hi = 260 if tier == "quick" else 700
     for d in range(17, hi):
         for kind, beta in (("B", None), ("K", 14.0), ("K", 6.0)):
             for sign in (1.0, -1.0) if d % 7 == 0 else (1.0,):
